@@ -21,6 +21,92 @@ def class_members(c):
     return {k for k in c.consts if not k.startswith("__")}
 
 
+def sleeper_model(ctx, repo, rule="R3"):
+    """config_sleep on a model: module globals are the analysis's, futures are stand-ins, asyncio.wait / wait_for / shield
+    are intercepted - what is waited on, with which timeout, whether the shared future could be cancelled by the wait,
+    and what the shared future is afterwards"""
+    from ..absint import Interp, Native, Obj, PyRaise, Undecided
+    m = repo.mod(CFG_MOD)
+    cs = m.functions.get("config_sleep")
+    if cs is None:
+        raise AnalysisError("config_sleep vanished")
+    idle = m.classes.get("_GeckoIdleConfig")
+    # ---- R3 sleeper ----------------------------------------------------------------------------
+    # the sleeper on a model (witness scenarios): module globals are the analysis's, futures are stand-ins, and
+    # asyncio.wait is intercepted - what is waited on, with which timeout, and what the shared future is afterwards
+    def sleeper(initial, delay):
+        it = Interp(repo)
+        made, waited, cancels = [], [], []
+
+        def mkfut(a_, k_):
+            f_ = Obj(None, {"_done": False}, name=f"future{len(made)}")
+            f_.attrs["done"] = Native(lambda a2, k2, f_=f_: f_.attrs["_done"])
+            f_.attrs["set_result"] = Native(lambda a2, k2, f_=f_: f_.attrs.__setitem__("_done", True))
+            made.append(f_)
+            return f_
+
+        def hook(it_, node, callee, args, kwargs):
+            nm = getattr(callee, "name", "")
+            if nm == "asyncio.get_running_loop" or nm == "asyncio.get_event_loop":
+                return Obj(None, {"create_future": Native(mkfut)}, name="loop")
+            if nm == "asyncio.wait":
+                waited.append((list(args[0]) if args else None, kwargs.get("timeout", "<no timeout>")))
+                return (set(), set())
+            if nm == "asyncio.shield":
+                return Obj(None, {"inner": args[0] if args else None}, name="shield")
+            if nm == "asyncio.wait_for":
+                tgt = args[0] if args else None
+                if isinstance(tgt, Obj) and tgt.name == "shield":
+                    tgt = tgt.attrs.get("inner")
+                else:
+                    cancels.append(tgt)   # wait_for cancels what it awaits when the timeout expires or the waiter is cancelled
+                waited.append(([tgt] if args else None, kwargs.get("timeout", args[1] if len(args) > 1 else "<no timeout>")))
+                return None
+            return NotImplemented
+        it.call_hook = hook
+        init = None
+        if initial == "done":
+            init = mkfut(None, None)
+            init.attrs["_done"] = True
+            made.clear()
+        elif initial == "pending":
+            init = mkfut(None, None)
+            made.clear()
+        it.globals = {"ConfigChange": init, "GeckoConfig": Obj(idle)}
+        try:
+            it.call(cs, None, [delay])
+        except PyRaise as e:
+            return {"raises": e.what}
+        except Undecided as e:
+            raise AnalysisError(f"config_sleep: {e}")
+        return {"initial": init, "made": made, "waited": waited, "shared": it.globals.get("ConfigChange"), "cancels": cancels}
+
+    for initial in ("none", "done", "pending"):
+        for delay in (7, 0, 0.0, 2.5):
+            r = sleeper(initial, delay)
+            key = f"config_sleep::{initial}::delay={delay!r}"
+            if "raises" in r:
+                ctx.ob(rule, key, False, f"config_sleep({delay!r}) raises {r['raises']} when the shared future is {initial}", cs.loc)
+                continue
+            shared = r["shared"]
+            one_wait = len(r["waited"]) == 1 and r["waited"][0][0] is not None and len(r["waited"][0][0]) == 1 and r["waited"][0][0][0] is shared
+            to = r["waited"][0][1] if r["waited"] else None
+            to_ok = (not isinstance(to, bool)) and isinstance(to, (int, float)) and to == delay
+            if initial == "pending":
+                fut_ok = shared is r["initial"] and not r["made"]
+                what = "a pending shared future (other sleepers are blocked on it) must be kept"
+            else:
+                fut_ok = len(r["made"]) == 1 and shared is r["made"][0] and shared is not r["initial"] and not shared.attrs["_done"]
+                what = "a missing / already resolved shared future must be replaced by one fresh pending future"
+            ctx.ob(rule, key, one_wait and to_ok and fut_ok,
+                   f"config_sleep({delay!r}) with the shared future {initial}: waits {[(len(w[0]) if w[0] else None, w[1]) for w in r['waited']]} (on the shared future: {one_wait}), creates {len(r['made'])} future(s) - "
+                   f"expected exactly one wait on the shared future with timeout {delay!r}; {what}",
+                   cs.loc, sample={"rule": rule, "initial": initial, "delay": delay, "timeout": str(to), "futures_created": len(r["made"])})
+            ctx.ob(rule, f"{key}::leaves-the-shared-future-alone", not any(c is shared for c in r["cancels"]),
+                   f"config_sleep({delay!r}) awaits the shared future through asyncio.wait_for without a shield: when this sleeper's timeout expires (or it is cancelled) wait_for cancels the future "
+                   f"every other sleeper is parked on - they all end with CancelledError (the ping loop dies silently, nothing reports an unreachable spa or wakes on the next switch)", cs.loc)
+
+
 def check(ctx):
     repo = Repo()
     m = repo.mod(CFG_MOD)
@@ -108,70 +194,7 @@ def check(ctx):
     glob = m.consts.get("GeckoConfig")
     ctx.ob("R1", "GeckoConfig::starts-as-complete-table", glob is not None and ast.unparse(glob) in ("_GeckoIdleConfig()", "_GeckoActiveConfig()"), "the root config is not an instance of a complete table", m.rel)
 
-    # ---- R3 sleeper ----------------------------------------------------------------------------
-    # the sleeper on a model (witness scenarios): module globals are the analysis's, futures are stand-ins, and
-    # asyncio.wait is intercepted - what is waited on, with which timeout, and what the shared future is afterwards
-    def sleeper(initial, delay):
-        it = Interp(repo)
-        made, waited = [], []
-
-        def mkfut(a_, k_):
-            f_ = Obj(None, {"_done": False}, name=f"future{len(made)}")
-            f_.attrs["done"] = Native(lambda a2, k2, f_=f_: f_.attrs["_done"])
-            f_.attrs["set_result"] = Native(lambda a2, k2, f_=f_: f_.attrs.__setitem__("_done", True))
-            made.append(f_)
-            return f_
-
-        def hook(it_, node, callee, args, kwargs):
-            nm = getattr(callee, "name", "")
-            if nm == "asyncio.get_running_loop" or nm == "asyncio.get_event_loop":
-                return Obj(None, {"create_future": Native(mkfut)}, name="loop")
-            if nm == "asyncio.wait":
-                waited.append((list(args[0]) if args else None, kwargs.get("timeout", "<no timeout>")))
-                return (set(), set())
-            if nm == "asyncio.wait_for":
-                waited.append(([args[0]] if args else None, kwargs.get("timeout", args[1] if len(args) > 1 else "<no timeout>")))
-                return None
-            return NotImplemented
-        it.call_hook = hook
-        init = None
-        if initial == "done":
-            init = mkfut(None, None)
-            init.attrs["_done"] = True
-            made.clear()
-        elif initial == "pending":
-            init = mkfut(None, None)
-            made.clear()
-        it.globals = {"ConfigChange": init, "GeckoConfig": Obj(idle)}
-        try:
-            it.call(cs, None, [delay])
-        except PyRaise as e:
-            return {"raises": e.what}
-        except Undecided as e:
-            raise AnalysisError(f"config_sleep: {e}")
-        return {"initial": init, "made": made, "waited": waited, "shared": it.globals.get("ConfigChange")}
-
-    for initial in ("none", "done", "pending"):
-        for delay in (7, 0, 0.0, 2.5):
-            r = sleeper(initial, delay)
-            key = f"config_sleep::{initial}::delay={delay!r}"
-            if "raises" in r:
-                ctx.ob("R3", key, False, f"config_sleep({delay!r}) raises {r['raises']} when the shared future is {initial}", cs.loc)
-                continue
-            shared = r["shared"]
-            one_wait = len(r["waited"]) == 1 and r["waited"][0][0] is not None and len(r["waited"][0][0]) == 1 and r["waited"][0][0][0] is shared
-            to = r["waited"][0][1] if r["waited"] else None
-            to_ok = (not isinstance(to, bool)) and isinstance(to, (int, float)) and to == delay
-            if initial == "pending":
-                fut_ok = shared is r["initial"] and not r["made"]
-                what = "a pending shared future (other sleepers are blocked on it) must be kept"
-            else:
-                fut_ok = len(r["made"]) == 1 and shared is r["made"][0] and shared is not r["initial"] and not shared.attrs["_done"]
-                what = "a missing / already resolved shared future must be replaced by one fresh pending future"
-            ctx.ob("R3", key, one_wait and to_ok and fut_ok,
-                   f"config_sleep({delay!r}) with the shared future {initial}: waits {[(len(w[0]) if w[0] else None, w[1]) for w in r['waited']]} (on the shared future: {one_wait}), creates {len(r['made'])} future(s) - "
-                   f"expected exactly one wait on the shared future with timeout {delay!r}; {what}",
-                   cs.loc, sample={"rule": "R3", "initial": initial, "delay": delay, "timeout": str(to), "futures_created": len(r["made"])})
+    sleeper_model(ctx, repo, "R3")
     ctx.ob("R3", "config_sleep::single-wait", len([n for n in cfg_of(cs).stmt_nodes() if n.suspends]) == 1, "config_sleep has more than one suspension point", cs.loc)
     # the shared future may be replaced only when it is None or done: a pending future that other
     # sleepers are blocked on must never be dropped or rebound (they would miss the next wake-up)
